@@ -711,6 +711,15 @@ def scenario_text(sid, tag, cfg, argv, prog="prog", as_string=None):
             o.append("printdef=%d" % a.printdef)
         return "A %s %s %s %s" % (a.slot, hx(a.keyspec()), hx(a.desc), " ".join(o))
 
+    def subgroup_lines():
+        r = ["SG %s %d" % (hx(cfg.subgroup[0]), cfg.subgroup[1])]
+        for a in cfg.subgroup[2]:
+            if a.init is not None:
+                r.append("I %s %s" % (a.slot, hx("\x1f".join(a.init) if isinstance(a.init, list) else a.init)))
+            r.append(arg_line(a).rstrip())
+        r.append("SE")
+        return r
+
     def cons_lines(member):
         r = []
         for a in cfg.args:
@@ -743,6 +752,8 @@ def scenario_text(sid, tag, cfg, argv, prog="prog", as_string=None):
         for kind, mem, cm in cfg.constraints:
             if (m is None) or cm == m:
                 L.append("C %s %s" % (kind, hx(";".join(x.refspec() for x in mem))))
+        if cfg.subgroup is not None and m is not None and getattr(cfg, "subgroup_member", None) == m:
+            L += subgroup_lines()
     # excludes / requires are attached on the A line (spec string only)
     out = []
     for ln in L:
@@ -762,13 +773,8 @@ def scenario_text(sid, tag, cfg, argv, prog="prog", as_string=None):
                 if a.requires:
                     ln += " req=" + hx(";".join(x.refspec(salt="r" + a.slot) for x in a.requires))
         res.append(ln)
-    if cfg.subgroup is not None:
-        res.append("SG %s %d" % (hx(cfg.subgroup[0]), cfg.subgroup[1]))
-        for a in cfg.subgroup[2]:
-            if a.init is not None:
-                res.append("I %s %s" % (a.slot, hx("\x1f".join(a.init) if isinstance(a.init, list) else a.init)))
-            res.append(arg_line(a).rstrip())
-        res.append("SE")
+    if cfg.subgroup is not None and not (cfg.groups is not None and getattr(cfg, "subgroup_member", None) is not None):
+        res += subgroup_lines()
     if getattr(cfg, "arg_file_key", None):
         res.append("AF " + hx(cfg.arg_file_key))
     if cfg.env_name is not None:
